@@ -403,8 +403,8 @@ theorem round8_toNat (x : UInt16) (h : x.toNat + 7 < 65536) : (round8 x).toNat =
 /-- Match round trip -/
 theorem match_roundtrip (v : V) (hwf : MatchWF v) :
     ∃ bs, Match.marshalM v = .ok (bs, v) ∧ Match.lenM v = .ok (UInt16.ofNat bs.length, v) ∧ bs.length % 8 = 0 ∧
-      ∀ (data : Slice) (tail : Bytes), data.WF → data.bytes = bs ++ tail →
-        Match.unmarshal Match.zero data = .ok v := by
+      (∀ (data : Slice) (tail : Bytes), data.WF → data.bytes = bs ++ tail →
+        Match.unmarshal Match.zero data = .ok v) ∧ 8 ≤ bs.length ∧ bs.length < 65536 := by
   unfold MatchWF at hwf
   split at hwf
   · rename_i ty ln fs
@@ -449,7 +449,7 @@ theorem match_roundtrip (v : V) (hwf : MatchWF v) :
     have hbl : (be16 (n16 ty) ++ be16 (n16 ln) ++ encs.flatten ++ zeros ((ln + 7) / 8 * 8 - ln)).length
         = (ln + 7) / 8 * 8 := by
       simp only [List.length_append, be16_length, zeros_length]; omega
-    refine ⟨_, hmar, ?_, ?_, ?_⟩
+    refine ⟨_, hmar, ?_, ?_, ?_, by rw [hbl]; omega, by rw [hbl]; omega⟩
     · rw [hlenM, hbl]
       congr 2
       apply UInt16.toNat_inj.mp
@@ -476,5 +476,16 @@ theorem match_roundtrip (v : V) (hwf : MatchWF v) :
       simp only [Res.bind_ok, Res.pure_eq]
       simp [V.u16, n16_toNat ty hty, n16_toNat ln (by omega)]
   · exact absurd hwf id
+
+/-- the variant of the decoder that FlowMod / FlowStats use (result and error flag) -/
+theorem unmarshalP_of_unmarshal (recv : V) (d : Slice) (v : V) (h : Match.unmarshal recv d = .ok v) :
+    Match.unmarshalP recv d = .ok (v, false) := by
+  unfold Match.unmarshal at h
+  split at h
+  · rename_i v' heq; cases h; exact heq
+  all_goals cases h
+
+/-- decoding into NewMatch() and into new(Match) is the same (only the receiver's field list is used) -/
+theorem unmarshalP_new (d : Slice) : Match.unmarshalP Match.new d = Match.unmarshalP Match.zero d := rfl
 
 end OFV.RT
